@@ -1,7 +1,9 @@
 package rest
 
 import (
+	"errors"
 	"net/http"
+	"sync"
 	"time"
 
 	"github.com/gorilla/websocket"
@@ -33,11 +35,16 @@ var upgraderV1 = websocket.Upgrader{
 	WriteBufferSize: 1024,
 }
 
+// errListenerClosedV1 tells the msghub to stop sending messages to a listener.
+var errListenerClosedV1 = errors.New("websocket listener closed")
+
 // msgListenerV1 handles messages from the msghub
 type msgListenerV1 struct {
-	hub     *msghub.Hub                // Global message hub
-	c       chan event.MessageMetadata // Queue of messages from Receive()
-	mailbox string                     // Name of mailbox to monitor, "" == all mailboxes
+	hub       *msghub.Hub                // Global message hub
+	c         chan event.MessageMetadata // Queue of messages from Receive(), never closed
+	done      chan struct{}              // Closed when this listener has shut down
+	closeOnce sync.Once                  // Guards done
+	mailbox   string                     // Name of mailbox to monitor, "" == all mailboxes
 }
 
 // newMsgListenerV1 creates a listener and registers it.  Optional mailbox parameter will restrict
@@ -46,6 +53,7 @@ func newMsgListenerV1(hub *msghub.Hub, mailbox string) *msgListenerV1 {
 	ml := &msgListenerV1{
 		hub:     hub,
 		c:       make(chan event.MessageMetadata, 100),
+		done:    make(chan struct{}),
 		mailbox: mailbox,
 	}
 	hub.AddListener(ml)
@@ -58,8 +66,29 @@ func (ml *msgListenerV1) Receive(msg event.MessageMetadata) error {
 		// Did not match the watched mailbox name.
 		return nil
 	}
-	ml.c <- msg
-	return nil
+
+	// Enqueue for websocket without ever blocking the msghub.  A listener that has shut down, or
+	// whose peer is not keeping up, returns an error so the hub drops it.
+	select {
+	case <-ml.done:
+		return errListenerClosedV1
+	default:
+	}
+	select {
+	case ml.c <- msg:
+		return nil
+	default:
+		// Queue is full, give up on this peer.
+		ml.shutdown()
+		return errListenerClosedV1
+	}
+}
+
+// shutdown tells the websocket writer to exit.
+func (ml *msgListenerV1) shutdown() {
+	ml.closeOnce.Do(func() {
+		close(ml.done)
+	})
 }
 
 // Delete handles a deleted message.
@@ -119,14 +148,16 @@ func (ml *msgListenerV1) WSWriter(conn *websocket.Conn) {
 	// Handle messages from hub until msgListener is closed
 	for {
 		select {
-		case msg, ok := <-ml.c:
+		case <-ml.done:
+			// msgListener closed, exit
+			if err := conn.SetWriteDeadline(time.Now().Add(writeWaitV1)); err != nil {
+				slog.Warn().Err(err).Msg("Failed to set write deadline for close")
+			}
+			_ = conn.WriteMessage(websocket.CloseMessage, []byte{})
+			return
+		case msg := <-ml.c:
 			if err := conn.SetWriteDeadline(time.Now().Add(writeWaitV1)); err != nil {
 				slog.Warn().Err(err).Msg("Failed to set write deadline for msg")
-			}
-			if !ok {
-				// msgListener closed, exit
-				_ = conn.WriteMessage(websocket.CloseMessage, []byte{})
-				return
 			}
 			if conn.WriteJSON(metadataToHeader(&msg)) != nil {
 				// Write failed
@@ -146,15 +177,10 @@ func (ml *msgListenerV1) WSWriter(conn *websocket.Conn) {
 	}
 }
 
-// Close removes the listener registration
+// Close removes the listener registration, it is safe to call more than once.
 func (ml *msgListenerV1) Close() {
-	select {
-	case <-ml.c:
-		// Already closed
-	default:
-		ml.hub.RemoveListener(ml)
-		close(ml.c)
-	}
+	ml.shutdown()
+	ml.hub.RemoveListener(ml)
 }
 
 // MonitorAllMessagesV1 is a web handler which upgrades the connection to a websocket and notifies
